@@ -81,6 +81,9 @@ package main
 //@ func (*Config).Validate
 //@   props C09 C18
 //@   requires c != nil
+//@   trace[C09,hostnames-rejected] each net.ParseIP satisfies $res0 == nil ==> result != nil
+//@   trace[C09,malformed-address-rejected] each net.SplitHostPort satisfies $res2 != nil ==> result != nil
+//@   trace[C09,duplicate-listener-rejected] each maplookup satisfies $res1 == true ==> result != nil
 
 //@ func (*OutlineServer).runConfig
 //@   props C10 C18
@@ -104,6 +107,21 @@ package main
 //@   loop 1 invariant portCiphers != nil && (forall p int :: has(portCiphers, p) ==> portCiphers[p] != nil && keyListOK(portCiphers[p])) \
 //@     && (forall p int :: forall q int :: has(portCiphers, p) && has(portCiphers, q) && p != q ==> portCiphers[p] != portCiphers[q])
 //@   loop 2 invariant portCiphers != nil && (forall p int :: has(portCiphers, p) ==> portCiphers[p] != nil && keyListOK(portCiphers[p]))
+//@   trace[C09,legacy-key-goes-to-its-own-port] loop 1 each list.(*List).PushBack satisfies $arg0 == portCiphers[keyConfig.Port]
+//@   trace[C09,legacy-entry-from-this-key] loop 1 each service.MakeCipherEntry satisfies $arg0 == keyConfig.ID && $arg2 == keyConfig.Secret && $arg1 == evres("shadowsocks.NewEncryptionKey", 0)
+//@   trace[C09,legacy-cipher-from-this-key] loop 1 each shadowsocks.NewEncryptionKey satisfies $arg0 == keyConfig.Cipher && $arg1 == keyConfig.Secret
+//@   trace[C09,legacy-one-entry-per-key] loop 1 exactly 1 list.(*List).PushBack
+//@   trace[C09,legacy-port-serves-its-own-list] loop 2 each service.(*cipherList).Update satisfies $arg1 == cipherList
+//@   trace[C09,legacy-service-gets-port-list] loop 2 each service.WithCiphers satisfies $arg0 == evres("service.NewCipherList", 0)
+//@   trace[C09,legacy-listens-on-its-port] loop 2 each main.(*listenerSet).ListenStream satisfies $arg1 == addr
+//@   trace[C09,legacy-listens-on-its-port-udp] loop 2 each main.(*listenerSet).ListenPacket satisfies $arg1 == addr
+//@   trace[C09,legacy-one-service-per-port] loop 2 exactly 1 service.NewShadowsocksService
+//@   trace[C09,service-gets-its-own-keys] loop 3 each main.newCipherListFromConfig satisfies sameslice($arg0.Keys, serviceConfig.Keys)
+//@   trace[C09,service-uses-its-own-list] loop 3 each service.WithCiphers satisfies $arg0 == evres("main.newCipherListFromConfig", 0)
+//@   trace[C09,one-service-per-config-entry] loop 3 exactly 1 service.NewShadowsocksService
+//@   trace[C09,listens-on-configured-address] loop 4 each main.(*listenerSet).ListenStream satisfies $arg1 == lnConfig.Address
+//@   trace[C09,listens-on-configured-address-udp] loop 4 each main.(*listenerSet).ListenPacket satisfies $arg1 == lnConfig.Address
+//@   trace[C09,one-listener-per-entry] loop 4 atmost 1 main.(*listenerSet).Listen*
 //@   trace[C07,one-cache-for-all-services] each service.WithReplayCache satisfies $arg0 == &s.replayCache
 //@   trace[C07,every-service-gets-the-cache] each service.NewShadowsocksService satisfies evcount("service.WithReplayCache") >= 1
 //@   acquires-level 5
@@ -127,7 +145,20 @@ package main
 //@   props C07 C18 C19
 //@   requires replayHistory <= 20000 && validServerMetrics(serverMetrics)
 
+// newCipherListFromConfig: per configured key, an entry is appended exactly when its (cipher, secret)
+// pair has not been seen before in this service, built from this key's own ID, cipher and secret, and
+// the pair is recorded then; so the list is Keys with later duplicates dropped, first ID kept.
 //@ func newCipherListFromConfig
 //@   props C01 C09 C18
 //@   loop 1 invariant cipherList != nil && keyListOK(cipherList) && existingCiphers != nil
+//@   trace[C09,dedup-key-is-cipher-and-secret] loop 1 holds key.cipher == keyConfig.Cipher && key.secret == keyConfig.Secret
+//@   trace[C09,looks-up-this-pair] loop 1 each maplookup satisfies $arg0 == existingCiphers && $arg1 == mapkey(key)
+//@   trace[C09,duplicate-is-skipped] loop 1 each maplookup satisfies $res1 == true ==> evcount("list.(*List).PushBack") == 0 && evcount("mapupdate") == 0
+//@   trace[C09,first-occurrence-is-added] loop 1 each maplookup satisfies $res1 == false ==> evcount("list.(*List).PushBack") == 1 && evcount("mapupdate") == 1
+//@   trace[C09,records-this-pair] loop 1 each mapupdate satisfies $arg0 == existingCiphers && $arg1 == mapkey(key)
+//@   trace[C09,entry-from-this-key] loop 1 each service.MakeCipherEntry satisfies $arg0 == keyConfig.ID && $arg2 == keyConfig.Secret && $arg1 == evres("shadowsocks.NewEncryptionKey", 0)
+//@   trace[C09,cipher-from-this-key] loop 1 each shadowsocks.NewEncryptionKey satisfies $arg0 == keyConfig.Cipher && $arg1 == keyConfig.Secret
+//@   trace[C09,appended-to-this-list] loop 1 each list.(*List).PushBack satisfies $arg0 == cipherList
+//@   trace[C09,list-installed] each service.(*cipherList).Update satisfies $arg1 == cipherList && $arg0 == as(result.0, "*service.cipherList")
+//@   trace[C09,bad-cipher-fails-the-service] each shadowsocks.NewEncryptionKey satisfies $res1 != nil ==> result.1 != nil && result.0 == nil
 //@   ensures result.1 == nil ==> result.0 != nil
